@@ -197,6 +197,8 @@ class DisambiguateChoices(RelativeHandlerInterface):
         name = choice.name
         if inner:
             name = self.next_available_name(source, name)
+        else:
+            name = self.next_available_outer_name(source, choice.namespace, name)
 
         return Class(
             qname=build_qname(choice.namespace, name),
@@ -207,6 +209,40 @@ class DisambiguateChoices(RelativeHandlerInterface):
             ns_map=source.ns_map,
             nillable=choice.restrictions.nillable or False,
         )
+
+    def next_available_outer_name(
+        self,
+        source: Class,
+        namespace: str | None,
+        name: str,
+    ) -> str:
+        """Find the next available name for an outer class.
+
+        Classes with the same qualified name are renamed later, but
+        a class from another namespace in the same location with the
+        same name, would go undetected.
+
+        Args:
+            source: The source class instance
+            namespace: The namespace of the outer class
+            name: The name of the outer class
+
+        Returns:
+            The next available class name by adding a integer suffix.
+        """
+        reserved = {
+            text.alnum(item.name)
+            for item in self.container
+            if item.location == source.location
+            and item.target_namespace != (namespace or None)
+        }
+        index = 0
+        new_name = name
+        while text.alnum(new_name) in reserved:
+            index += 1
+            new_name = f"{name}_{index}"
+
+        return new_name
 
     @classmethod
     def next_available_name(cls, parent: Class, name: str) -> str:
